@@ -166,6 +166,8 @@ def judge(codec, c, out_line):
         return "no result"
     if t[2] == "panic":
         return "the codec panicked"
+    if t[2] == "alias":
+        return "the bytes GobEncode returned for one session changed when another session was encoded"
     if t[2] in ("encerr", "decerr"):
         return "round trip failed: " + t[2]
     f = dict(kv.split("=", 1) for kv in t[3:] if "=" in kv)
